@@ -47,6 +47,8 @@ def patch_menu(spec):
         ck = kind_of(c)
         if ck == 'i':
             out.append({a: 99})
+        elif ck == 'R' and (c[1] if c[0] == 'R' else nodes[c[1]][1][1]) == 'RTuple':
+            out.append({a: 42})      # a child with a non-dict state can only be replaced (patching "entries of its state" is undefined)
         elif ck == 'R':
             out.append({a: {'pp': 5}})
             out.append({a: 42})
@@ -55,7 +57,9 @@ def patch_menu(spec):
             if c[0] == 'R':
                 for a2, c2 in c[2]:
                     if kind_of(c2) == 'R':
-                        out.append({a: {a2: {'qq': 7}}})
+                        v2 = c2[1] if c2[0] == 'R' else nodes[c2[1]][1][1]
+                        if v2 != 'RTuple':
+                            out.append({a: {a2: {'qq': 7}}})
                         out.append({a: {a2: 13, 'pp': 5}})
                     elif kind_of(c2) == 'i':
                         out.append({a: {a2: 77}})
